@@ -106,6 +106,23 @@ class Part(object):
 _PARTS = None
 
 
+def impl_exception(exc):
+    """If the deepest harness-or-repo frame of the traceback lies in the tree under test, the
+    exception was raised by (or below) the implementation: return a violation signature."""
+    repo = os.path.realpath(os.environ.get("VERIF_REPO", "/repo")) + os.sep
+    verif = os.path.realpath(VERIF) + os.sep
+    last = None
+    for fs in traceback.extract_tb(exc.__traceback__):
+        fn = os.path.realpath(fs.filename)
+        if fn.startswith(repo):
+            last = ("repo", fs.name)
+        elif fn.startswith(verif):
+            last = ("verif", fs.name)
+    if last and last[0] == "repo":
+        return "exception-in-implementation:%s@%s" % (type(exc).__name__, last[1])
+    return None
+
+
 def _work(item):
     pi, case = item
     part = _PARTS[pi]
@@ -114,10 +131,14 @@ def _work(item):
     t0 = time.time()
     try:
         res = part.run(case)
-    except Exception:
+    except Exception as e:
         res = Res()
-        res.violation("harness-exception", traceback.format_exc(), case)
-        res.counters["harness_errors"] = 1
+        sig = impl_exception(e)
+        if sig:
+            res.violation(sig, "work unit %r: %s" % (case, traceback.format_exc()[-1500:]), case)
+        else:
+            res.violation("harness-exception", traceback.format_exc(), case)
+            res.counters["harness_errors"] = 1
     finally:
         leaked = seams.restore_globals()
     if leaked:
@@ -157,7 +178,13 @@ def do_replay(mod, path, tier, seed):
     from mc import seams
 
     seams.snapshot_globals()
-    vs = part.replay(body["replay"])
+    try:
+        vs = part.replay(body["replay"])
+    except Exception as e:
+        sig = impl_exception(e)
+        if not sig:
+            raise
+        vs = [{"sig": sig, "msg": traceback.format_exc()[-800:], "replay": body["replay"]}]
     seams.restore_globals()
     same = [v for v in vs if v["sig"] == body["signature"]]
     for v in vs:
